@@ -34,7 +34,7 @@ def setup():
     CR.setup_pipeline()
 
 
-def gen(c, k, labels, nkinds=3, with_fm=False):
+def gen(c, k, labels, nkinds=3, with_fm=False, attrs=False):
     items = []
     kept_flags, defined = [], set()
     for i in range(k):
@@ -65,7 +65,8 @@ def gen(c, k, labels, nkinds=3, with_fm=False):
         if kind == 4:
             lines += ["# %s" % lab, ""]
         elif kind == 0:
-            lines += ["R%d text[^%s] more" % (i, lab), ""]
+            # (with attrs_inline enabled, '{...}' after a reference must not turn '[^a]' into a bracketed span)
+            lines += ["R%d text[^%s]%s more" % (i, lab, ["", "{.cls}", "{#i%d}" % i, "{}"][c.choose(4)] if attrs else ""), ""]
         elif kind == 1:
             lines += ["[^%s]: D%d definition" % (lab, i), ""]
         else:
@@ -73,13 +74,14 @@ def gen(c, k, labels, nkinds=3, with_fm=False):
     if fm:
         # the effective settings come from the front matter; the global settings say the opposite
         lines = ["---", "myst:", "  footnote_sort: %s" % str(sort).lower(), "  footnote_transition: %s" % str(trans).lower(), "---", ""] + lines
-    return "\n".join(lines) + "\n", dict(items=items, sort=sort, trans=trans, fm=fm)
+    return "\n".join(lines) + "\n", dict(items=items, sort=sort, trans=trans, fm=fm, attrs=attrs)
 
 
 def settings_for(spec):
+    ext = {"myst_enable_extensions": ["attrs_inline"]} if spec.get("attrs") else {}
     if spec.get("fm"):
-        return {"myst_footnote_sort": not spec["sort"], "myst_footnote_transition": not spec["trans"]}
-    return {"myst_footnote_sort": spec["sort"], "myst_footnote_transition": spec["trans"]}
+        return dict(ext, myst_footnote_sort=not spec["sort"], myst_footnote_transition=not spec["trans"])
+    return dict(ext, myst_footnote_sort=spec["sort"], myst_footnote_transition=spec["trans"])
 
 
 def _own_text(f):
@@ -219,7 +221,7 @@ def check(doc, warn, spec):
     return None
 
 
-def make(eng, k, labels, nkinds=3, with_fm=False):
+def make(eng, k, labels, nkinds=3, with_fm=False, attrs=False):
     setup()
     c = CR.Choice(eng)
     state = {}
@@ -227,7 +229,7 @@ def make(eng, k, labels, nkinds=3, with_fm=False):
 
     def body():
         c.reset()
-        text, spec = gen(c, k, labels, nkinds, with_fm)
+        text, spec = gen(c, k, labels, nkinds, with_fm, attrs)
         state["text"], state["spec"] = text, spec
         try:
             doc, warn = CR.publish(text, settings_for(spec))
@@ -256,6 +258,8 @@ def families(tier, seed):
                     "overridden in the front matter (global value opposite)", args=dict(k=3, labels=["a", "1"], nkinds=4, with_fm=True), nontrivial="linked", max_forks=400000))
     F.append(Family("arr/K3-headings", make, "3 items (reference / definition / definition in a quote / heading whose title equals a label) over labels ['a', 'b']: a heading named like a label does not disturb the footnote",
                     args=dict(k=3, labels=["a", "b"], nkinds=5), nontrivial="linked", max_forks=400000))
+    F.append(Family("arr/K3-attrs", make, "3 items (reference / definition) over labels ['a', '1'] with the attrs_inline extension enabled and every reference followed by nothing, '{.cls}', '{#id}' or '{}'",
+                    args=dict(k=3, labels=["a", "1"], nkinds=2, attrs=True), nontrivial="linked", max_forks=400000))
     F.append(Family("arr/K5-L2-flat", make, "all arrangements of 5 items (reference / definition) over labels ['a', 'b'] x both settings (repeated references between other labels' first references)",
                     args=dict(k=5, labels=["a", "b"], nkinds=2), nontrivial="linked", max_forks=400000))
     if not q:
@@ -265,7 +269,7 @@ def families(tier, seed):
 
 def replay(label, witness):
     spec = witness["spec"]
-    spec = dict(items=[tuple(x) for x in spec["items"]], sort=spec["sort"], trans=spec["trans"], fm=spec.get("fm", False))
+    spec = dict(items=[tuple(x) for x in spec["items"]], sort=spec["sort"], trans=spec["trans"], fm=spec.get("fm", False), attrs=spec.get("attrs", False))
     try:
         doc, warn = CR.publish(witness["text"], settings_for(spec), real=True)
     except Exception as e:  # noqa
